@@ -25,6 +25,11 @@ control flow, in the destructor of an RAII guard during stack unwinding, inside 
 the handled exception, p(current_exception()) / p.unhandled_exception()); a broken promise additionally by the
 promise's destructor at the end of its scope and as a local destroyed by an exception leaving the scope (~promise:
 plain load of _owner, future.h:600-603, also under the controlled scheduler with one resolver).
+Sequential scenarios additionally: outcome "fthrow" (FactoryFail) = the factory given to `adapter << factory`
+(call_fn_future_awaiter, future_conv both forms) throws instead of returning a future: the exception is the operation's
+outcome (future::result_of); resolution context "assign" = another promise (empty / of another future) is
+move-assigned into the promise variable that still holds the unresolved target (promise::operator=(promise&&) must
+drop it: completion once with the no-value outcome, helper freed).
 The sequential scenarios run from ordinary code (ctx "plain") and from inside a running coroutine (ctx "coro": the
 helper coroutine of callback_await is queued and starts at Yield); callback_await's awaitable argument is passed as
 a temporary, an lvalue and a moved named object (tracked: destruction / move poison it; ArgsAsPassed).
